@@ -295,7 +295,7 @@ def intermediates(prev, final, prev_ids, final_ids, desc, backend, bucket):
 
 class Observer:
     def __init__(self, path, backend):
-        self.conn = sqlite3.connect(f"file:{path}?mode=ro", uri=True, timeout=0.2)
+        self.conn = sqlite3.connect(f"file:{__import__('urllib.parse').parse.quote(path)}?mode=ro", uri=True, timeout=0.2)
         self.backend = backend
         self.version = None
         self.state = None
